@@ -48,6 +48,11 @@ def run(ck):
     ck.run_rule(r8_r10_driver)
     ck.run_rule(r12_value_algebra)
     ck.run_rule(r13_full_width)
+    ck.run_rule(r13b_every_move_searched)
+    # a table entry answers for exactly the position it was stored for: the hash separates positions (C08's H rules)
+    from .c08 import h1_h2_h5_influence, h4_keys
+    ck.run_rule(h1_h2_h5_influence)
+    ck.run_rule(h4_keys)
     from .c05 import v3_mate_score as v3_mate_scores
     ck.run_rule(v3_mate_scores)
     # a reported mate is true only if the evaluator says "mate" for mated positions alone: its terminal test (C05's V1, V2, V4)
@@ -610,6 +615,50 @@ def r13_full_width(ck):
             x = x[2][0] if x[2] else ("none",)
         ck.req(not bad, "R13.loop_all", "move loop@L%s" % t.get("line"), b.where(t.get("line")),
                "the move loop does not walk the whole buffer (adapters: %s): some generated moves are never searched" % bad)
+
+
+def r13b_every_move_searched(ck):
+    """... and inside the loop every legal move reaches the recursive call: between the loop head and the call only the loop's own `next`,
+    the legality test of the move and the node's interrupt propagation may decide anything.  A pruning condition (futility, late-move
+    skipping, ..) placed there removes moves from the search; the claim "forced mates within the depth are found" does not survive it."""
+    prog = ck.prog
+    b = ck.body(REC, "R13")
+    tb = TermBuilder(prog, b)
+    recs = live_calls(b, names=(REC,))
+    ck.floor("R13", len(recs), 1, "recursive calls in analyze_recursive")
+    for bb, t in recs:
+        if not cfg.in_cycle(b, bb):
+            continue
+        extra = []
+        for c, tk in guards_of(prog, b, bb, tb):
+            if c[0] == "discr":
+                inner = c[1]
+                if any(x[0] == "call" and (is_iter_next(x[1]) or x[1].endswith("try_as_legal_move") or x[1].endswith("Try>::branch") or x[1].split("::")[-1] in ("find", "lookup"))
+                       for x in walk(inner)):
+                    continue
+            # conditions that hold before the loop is entered (depth test, table probe, history test) are not per-move decisions
+            src_blocks = [b2 for b2, blk in enumerate(b.blocks) if blk["term"]["k"] == "switch" and tb.operand(blk["term"]["discr"]) == c]
+            if src_blocks and not any(cfg.in_cycle(b, sb) for sb in src_blocks):
+                continue
+            extra.append((show(c)[:80], tk))
+        # path form (a pruning condition written as a short-circuit chain leaves no dominating guard): once a move has passed the
+        # legality test, the next round of the move loop is reached only through the recursive call
+        heads = [hb for hb, ht in live_calls(b) if is_iter_next(callee_name(ht)) and cfg.in_cycle(b, hb) and bb in cfg.reachable(b, [hb]) and hb in cfg.reachable(b, [bb])]
+        legal = []
+        for b2, blk in enumerate(b.blocks):
+            t2 = blk["term"]
+            if t2["k"] == "switch" and not blk.get("cleanup"):
+                c2 = tb.operand(t2["discr"])
+                if c2[0] == "discr" and any(x[0] == "call" and x[1].endswith("try_as_legal_move") for x in walk(c2[1])):
+                    legal += [x[1] for x in t2["cases"] if x[0] == 1] or [t2["otherwise"]]
+        if heads and legal:
+            okp = cfg.must_pass(b, legal, heads, [bb])
+            ck.req(okp, "R13.every_move", "recursion@L%s (paths)" % t.get("line"), b.where(t.get("line")),
+                   "a move that passed the legality test can be skipped: the move loop goes on to the next move without the recursive search having "
+                   "been called for this one (pruning); a forced mate through such a move is missed")
+        ck.req(not extra, "R13.every_move", "recursion@L%s" % t.get("line"), b.where(t.get("line")),
+               "a legal move reaches the recursive search only under %s: moves failing that test are never searched (pruning), a forced mate through "
+               "one of them is missed at the depth that should find it" % extra[:2])
 
 
 def _is_buf_ref(a, BUF):
